@@ -38,7 +38,7 @@ CLAIMED = {
         note="Trusted: TLC, f64 evaluation of ln(2 pi), ln 2, ln det in harness/src/c15.rs. Values between lattice points are not enumerated (DESIGN section 8).",
         ref="DESIGN.md 4.9, 5/C15", technique="TLC-enumerated lattice cases with exact symbolic oracle and gradient lemmas (Dist.tla) replayed into every public evaluation path"),
     "C17": dict(
-        text="Export.tla models a save call as one atomic action over a file system of tables of opaque tokens, with the documented axis order of each of the five entry points; TLC checks one-row-per-cell / every-token-once / error-leaves-nothing on all (entry point, shape incl. zero extents, path kind) and emits the expected table; the real save_* functions are called with tokens bound to adversarial values (subnormals, extremes, -0.0, NaN, infinities, integer extremes), the files are read back with the csv/arrow/parquet readers and compared cell by cell, unwritable paths must give Err without panic or leftover file. Unwritable path kinds: missing directory, a directory, and a device that opens and refuses every byte (/dev/full): an error that only surfaces at the final flush must be reported.",
+        text="Export.tla models a save call as one atomic action over a file system of tables of opaque tokens, with the documented axis order of each of the five entry points; TLC checks one-row-per-cell / every-token-once / error-leaves-nothing on all (entry point, shape incl. zero extents, path kind) and emits the expected table; the real save_* functions are called with tokens bound to adversarial values (subnormals, extremes, -0.0, NaN, infinities, integer extremes), the files are read back with the csv/arrow/parquet readers and compared cell by cell, unwritable paths must give Err without panic or leftover file. Unwritable path kinds: missing directory, a directory, and a device that opens and refuses every byte (/dev/full): an error that only surfaces at the final flush must be reported. The writable path already holds an older, longer export before every save (Export!Init, Stale): a save replaces the file.",
         note="Trusted: TLC for layout/labels/Ok-Err; the csv, arrow and parquet reader crates and bit-pattern comparison in harness/src/c17.rs for value fidelity. The array entry points are called with the same logical array in five memory layouts (row-major, column-major, permuted / reversed axes, strided view).",
         ref="DESIGN.md 4.9, 5/C17", technique="TLC-enumerated save actions (Export.tla) replayed into the real writers and read back"),
     "C18": dict(
